@@ -10,7 +10,7 @@ ASSUMPTIONS = ['live SQLite (in-memory) with foreign keys enforced immediately',
 SHARDS = {'quick': 8, 'thorough': 16}
 MIN_EVALS = {'quick': 2000, 'thorough': 5000}
 PROPS = {'C14'}
-WEIGHTS = {'create': 8, 'set': 7, 'setm': 4, 'del': 2, 'commit': 2, 'flush': 2, 'rekey': 4}
+WEIGHTS = {'create': 8, 'set': 7, 'setm': 4, 'del': 2, 'commit': 2, 'flush': 5, 'rekey': 4}
 
 run = sesscheck.make_run(ID, PROPS, 700, 6000, weights=WEIGHTS,
                          nontrivial=lambda program, stats: stats.get('conflict_deferred', 0) > 0 or stats.get('call_failed:CacheIndexError', 0) > 0 or stats.get('tx_failures', 0) > 0)
